@@ -28,7 +28,7 @@ def sim_variants(tier):
 def tables_for(prog, tier, two):
     names = [c for c in gd.conditions_of(prog) if c != "never"]
     if tier == "quick":
-        times, dev, shapes = (0, 1, 3), (1 if two else 2), ("step",)
+        times, dev, shapes = (0, 1, 3), (1 if two or prog.get("main") else 2), ("step",)
     else:
         times, dev, shapes = (0, 1, 2, 3, 4), (1 if two else 2), ("step", "pulse")
     for t in gd.fire_tables(names, HORIZON, dev, shapes, times):
@@ -49,7 +49,7 @@ def check_program(item):
     out = {"idx": idx, "runs": 0, "violations": [], "prefixes": set(), "edges": 0, "types": {}, "sched_dev": 0}
     text = gd.render(prog)
     try:
-        sc = dyn.compile_scenario(text)
+        sc = dyn.compile_scenario(text, **({"scenario": prog["main"]} if prog.get("main") else {}))
         scene, _ = sc.generate(maxIterations=5)
     except Exception as e:  # noqa: BLE001
         out["violations"].append((f"compile:{type(e).__name__}", f"program of the fragment does not compile: {e!r}\n{text}", {"idx": idx, "prog": prog, "tier": tier, "kind": "compile"}))
@@ -87,6 +87,10 @@ def check_program(item):
                 out["prefixes"].add(h.digest()[:8])
                 if diff is not None:
                     sig = f"{diff['kind']}-mismatch"
+                    if prog.get("main") and "tws" in gd.conditions_of(prog):
+                        p2 = dict(prog, timestep=var["timestep"], maxSteps=var["maxSteps"])
+                        if dyncmp.compare(res, p2, tables, schedule=res.get("schedule", []), variant={"subscenario_tw_is_requirement"}) is None:
+                            sig = "subscenario-setup-terminate-when-registered-as-requirement"
                     out["violations"].append(
                         (
                             sig,
@@ -106,6 +110,7 @@ def _pack(out):
 
 def run(ctx):
     items = [(idx, prog, ctx.tier) for idx, prog in gd.c12_programs(ctx.tier)]
+    items += [(idx, prog, ctx.tier) for idx, prog in gd.c12_modular_programs(ctx.tier, start_index=len(items))]
     items = ctx.rotate(items)
     runs = states = edges = progs = sched_dev = 0
     types = {}
@@ -158,12 +163,17 @@ def replay(ctx, case):
         return
     prog = _fix(case["prog"])
     text = gd.render(prog)
-    sc = dyn.compile_scenario(text)
+    sc = dyn.compile_scenario(text, **({"scenario": prog["main"]} if prog.get("main") else {}))
     scene, _ = sc.generate(maxIterations=5)
     sched = [tuple(p) if p is not None else None for p in (case.get("schedule") or [])]
     res, diff = run_case(scene, prog, case["tables"], case["var"], sched or None)
     if diff is not None:
-        ctx.violation(f"{diff['kind']}-mismatch", f"{diff}\n{text}", case)
+        sig = f"{diff['kind']}-mismatch"
+        if prog.get("main") and "tws" in gd.conditions_of(prog):
+            p2 = dict(prog, timestep=case["var"]["timestep"], maxSteps=case["var"]["maxSteps"])
+            if dyncmp.compare(res, p2, case["tables"], schedule=res.get("schedule", []), variant={"subscenario_tw_is_requirement"}) is None:
+                sig = "subscenario-setup-terminate-when-registered-as-requirement"
+        ctx.violation(sig, f"{diff}\n{text}", case)
 
 
 def _fix(x):
